@@ -12,7 +12,7 @@ CLAIMS = {
    note="Trusts Kani's MIR->goto translation, CBMC, CaDiCaL. Division/remainder is decided against the definition q*d+r=a only for d in {1,2,3,7,MAX_MONEY+1,u64::MAX} and against machine division for d in {MAX_MONEY, 2^32+1}; other divisors (a symbolic divisor, 5000, 10^8 did not finish) are outside the claim. Sum impls: 3 elements.",
    ref="§5 C09"),
  "C19": dict(
-   text="Parameters: for ALL (n,k) in u32^2 whatever Params::new accepts satisfies every downstream precondition (no assert!/division by zero/overflow can fire). Decoding: for all byte strings of the exact length the decoder output equals an independent big-endian bit-slicer; every other length is rejected. One step of the tree validator from ARBITRARY children (all hashes, all indices) equals the definition (collision on the segment, ordering, distinctness, xor of tails, root zero test); leaves are derived from the right hash block and byte range for every index under an arbitrary hash function. Tree = structural recursion over these steps (stated, not solved end to end).",
+   text="Parameters: for ALL (n,k) in u32^2 whatever Params::new accepts satisfies every downstream precondition (no assert!/division by zero/overflow can fire). Decoding: for all byte strings of the exact length the decoder output equals an independent big-endian bit-slicer; every other length is rejected. One step of the tree validator from ARBITRARY children (all hashes, all indices) equals the definition (collision on the segment, ordering, distinctness, xor of tails, root zero test); leaves are derived from the right hash block and byte range for every index under an arbitrary hash function; the root test on a 1-leaf tree checks the whole last segment. Larger trees = structural recursion over these steps (stated, not solved end to end).",
    note="Hash abstraction: equihash::verify::generate_hash is stubbed by an arbitrary function in the leaf/grid harnesses, so nothing is claimed about BLAKE2b output values or personalisation. Children of 1, 2 and 4 indices; k=3 decoders for index widths 9..25 bits; whole-tree runs through is_valid_solution did not get through symex and are outside the claim. Uses the cfg(zcash_librustzcash_verif) hook module equihash::verif_hooks.",
    ref="§5 C19"),
 }
@@ -31,28 +31,32 @@ CLAIMS.update({
    note="Lengths 48 and 129 in the quick tier plus one seeded member of {63,65,128}; 193 thorough. BLAKE2b output values, the Bech32/Bech32m/Base58Check string layer, ZcashAddress parsing and the ZIP 316 container rules are outside the claim (string code is out of CBMC's reach; container harness not built).",
    ref="§5 C10"),
  "C12": dict(
-   text="Narrow: memo bytes survive unchanged. MemoBytes::from_bytes (accept iff <= 512 bytes, zero padding, as_slice = content without trailing zeros) and Memo <-> MemoBytes conversion for every 512-byte array of the non-text classes and for all text memos whose content is <= 6 bytes against an independent UTF-8 validator.",
+   text="Narrow: memo bytes survive unchanged. MemoBytes::from_bytes for ALL inputs of length 512, 20 and 0 (stored array = input followed by zeros; as_slice = content without trailing zeros) and 513 (TooLong); encoding of the non-text Memo classes (Empty, Arbitrary, Future) reproduces the bytes.",
    note="The ZIP 321 URI grammar, amount<->decimal conversion, percent-encoding, index and duplicate rules (format!/nom over &str) are outside the claim: CBMC did not get through format! of a 3-digit number in 11 minutes (DESIGN §3).",
    ref="§5 C12"),
+ "C13": dict(
+   text="Merge algebra of the PCZT Global record: Global::merge equals, for ALL pairs of field values and all 256 flag bytes, the documented rule (same transaction required, bits 0/1/7 merge towards false, bit 2 towards true, reserved bits 3-6 rejected), is commutative and idempotent on valid records; associativity follows from the solver-checked associativity of that reference. merge_optional (the helper every optional PCZT field is merged with) for all Option<u32> triples: fails iff both present and different, keeps whatever either side carried, commutative/idempotent/associative.",
+   note="Through the cfg(zcash_librustzcash_verif) hook pczt::verif_hooks; proprietary maps empty. Outside the claim: merge_map and the transparent/Sapling/Orchard record merges (BTreeMap-heavy harnesses did not finish and are kept as experimental), serde/postcard encodings and version selection, and every role that needs cryptography (signer, prover, extractor, pczt_txid).",
+   ref="§5 C13"),
  "C15": dict(
    text="One insertion step of the scan-queue algebra is decided for ALL ranges over u32 heights, all 7x7 priorities and both force flags: the result of the leaf-level insert is a sorted, gap-free, merged partition of the hull whose priority at EVERY height equals the documented dominance rule applied pointwise; dominance() and join_nonoverlapping() likewise. One step from an arbitrary valid range makes the Rust part inductive over insertion histories.",
    note="Through the cfg(zcash_librustzcash_verif) hook spanning_tree::verif_hooks. Outside the claim: the SpanningTree recursion over >1 leaf (thorough-tier harness for 2 leaves), the scan_queue SQL (replace_queue_entries, scan_complete, update_chain_tip, suggest_scan_ranges) and termination of syncing.",
    ref="§5 C15"),
  "C16": dict(
-   text="plan_denominations with caps 1 and 2 for ALL balances and buffers in [0,MAX_MONEY], symbolic note count, and an oracle that returns a fresh arbitrary answer on every call: canonical (19-entry table), non-increasing, <= cap, prefix of the canonical split, exact conservation, reserved fees = accepted answer x fee, change bound, generator never consulted. is_canonical_denomination for all Zatoshis and largest_one_two_five for all hi <= 10^12 against the table.",
-   note="Preparation fee bounded by 10^6 zatoshi in the quick tier (bounds the step-down loop; checked by unwinding assertions); caps 3..64 are outside the quick claim (cap 3 thorough). Uses the verif hook for unconstrained_split.",
+   text="is_canonical_denomination for all Zatoshis and largest_one_two_five for all hi <= 10^12 against the 19-entry table. unconstrained_split (cap 1) for ALL balances and buffers: canonical, non-increasing, <= cap, exact single-note funding, optimistic cost fits, greedy first value, remainder bound. plan() over ANY canonical split of length 0 or 1 with an oracle returning a fresh arbitrary answer on every call: truncation of the split, exact conservation, reserved fees = accepted answer x fee, generator never consulted. Over-charging oracle (any usize answer) on the real planner: no panic, no wrap.",
+   note="Assume-guarantee: plan() is decided with unconstrained_split stubbed by a superset of its behaviours (one stub per concrete length; a symbolic-length Vec exhausted 30 GB). Preparation fee bounded by 10^6 zatoshi (bounds the step-down loop; checked by unwinding assertions); caps 2-3 thorough, caps 4..64 and splits longer than 1 inside plan() outside the claim. Uses the verif hook for unconstrained_split.",
    ref="§5 C16"),
  "C17": dict(
-   text="Every generator word is kani::any(), so 'for every random stream' is the query: delays <= cap for any logarithm value; schedules non-decreasing/saturating with canonical expiries; closed form of expiry_height for all u32; shuffles are permutations (n<=4, Lemire rejection un-stubbed); anchor draws on the ZIP 318 grid and others: Some => on grid, above activation, >= funding, below the most recent boundary, age <= 4, None iff no candidate; wake-up schedules for <=2 transfers: exact cover, windows, strict order, brute-force minimality; classification monotone over the whole evidence lattice.",
-   note="Streams whose rejection loops end within the stated draw budget (2 words = 128 coin flips for anchors). libm::log stubbed by an arbitrary value in [-37,0]; the private gen_index stubbed by its contract in the wake-up harnesses only. Bucket intervals are instantiated concretely (a symbolic modulus did not finish).",
+   text="Every generator word is kani::any(), so 'for every random stream' is the query: delays <= cap for any logarithm value; schedules non-decreasing/saturating with canonical expiries; closed form of expiry_height for all u32; shuffles are permutations (n<=4, Lemire rejection un-stubbed); anchor draws on the ZIP 318 grid and others: Some => on grid, above activation, >= funding, below the most recent boundary, age <= 4, None iff no candidate; classification monotone over the whole evidence lattice. The wake-up schedule clause is NOT decided (harness did not finish).",
+   note="Streams whose rejection loops end within the stated draw budget (2 words = 128 coin flips for anchors). libm::log stubbed by an arbitrary value in [-37,0]; Bucket intervals are instantiated concretely (a symbolic modulus did not finish).",
    ref="§5 C17"),
  "C18": dict(
-   text="One inductive step from an ARBITRARY well-formed 2-transaction state (all lifecycle states, heights, expiries, marks, statuses symbolic): the step decision offers Broadcast only for a Proved, due, unexpired, unmarked, unreported row whose dependencies are mined, never for a terminal migration, and never withholds an eligible row; every public mutator moves rows only forward, truncate_to_height un-mines exactly the rows above the height, policy-terminal statuses are never left, Complete iff all mined.",
-   note="2 transactions; the drive loop advance_migration, record_satisfiability, shift_schedule, the SQLite save/load round trip and 'one non-terminal migration per account' are outside the claim. Representation invariant (unique ids, deps refer to earlier rows, in-flight rows carry their txid) is assumed of the pre-state and asserted of the post-state.",
+   text="One inductive step from an ARBITRARY well-formed 2-transaction state (all lifecycle states, heights, expiries, marks, statuses symbolic): next_broadcastable offers only a Proved, due, unexpired, unreported row outside the dead set whose dependencies are mined, picks the earliest scheduled, never withholds an eligible row (for each of the four possible dead sets); next_step offers Broadcast exactly when the migration is live and next_broadcastable found a row; every public mutator moves rows only forward, truncate_to_height un-mines exactly the rows above the height, policy-terminal statuses are never left, Complete iff all mined.",
+   note="2 transactions. Not decided: that the real dead_set computes the documented set (it is an input / stubbed), the non-broadcast steps (helpers stubbed in the priority harness), the drive loop advance_migration, record_satisfiability, shift_schedule, the SQLite save/load round trip and 'one non-terminal migration per account'. Representation invariant (unique ids, deps refer to earlier rows, in-flight rows carry their txid) is assumed of the pre-state and asserted of the post-state. Uses the verif hooks next_step / next_broadcastable.",
    ref="§5 C18"),
  "C20": dict(
-   text="Node record codecs V1/V2/V3 with EVERY field symbolic (all counter values, all roots, all work values): write then read returns every field, record length exact, unrepresentable height ranges rejected. V1 combine: every field rule plus exact hash framing (write(left)||write(right) under ZcashHistory||branch id), hash abstracted.",
-   note="blake2b_personal is stubbed (records its arguments, returns arbitrary bytes): nothing is claimed about BLAKE2b. Tree::append_leaf/truncate_leaf against a from-scratch MMR (harnesses c20_mmr_ops_*) did not get through symex (BTreeMap-backed store) and are NOT part of the claim unless listed as discharged in the evidence.",
+   text="Node record codecs V1/V2/V3 decided in two halves against one independent layout description, with EVERY field symbolic (all u64 counter values incl. beyond the compact-size bound, all roots, all work values): write emits exactly the layout byte for byte with the exact length; read of an arbitrary buffer returns exactly the fields the layout places there, Ok iff counters canonical and the height range representable. V1 combine: every field rule, personalisation ZcashHistory||branch id, and record(left) then record(right) hashed once each.",
+   note="blake2b_personal is stubbed (records its arguments, returns arbitrary bytes) and, in the combine harness only, NodeData::write is replaced by a 4-byte identifying marker (its real output is the write-layout harness): nothing is claimed about BLAKE2b. Tree::append_leaf/truncate_leaf against a from-scratch MMR did not get through symex (BTreeMap-backed store) and are NOT part of the claim (harnesses kept as experimental).",
    ref="§5 C20"),
 })
 
